@@ -19,7 +19,13 @@ BY_CONSTRUCTION = {
     'C01-r5m2': 'the quick tier had no instruction-count vector with exactly one empty phase (the thorough tier had); the five '
                 'vectors were added from the author\'s description while the first run was being started',
 }
+CAUGHT_BY_OTHER = {
+    # the change is to the order in which suite and case contents are merged ([conf]: the suite's `status` then overrides the
+    # case's): the subject of C17, whose check catches it; C02's kernels run single cases
+}
 ALSO = {
+    'C02-r5m1': ['C17 K3:sub, K3:beside:*, K3:named (the check of C17 caught it before C02 got K7: the change is to the order '
+                 'in which suite and case contents are merged)'],
     'C04-r4m2': ['C02 K3:chain:setup-main, K3:chain:post (the check of C02 caught it before C04 was strengthened)'],
 }
 
@@ -61,6 +67,11 @@ def main():
         elif rc1 == 1:
             entry.update(caught_by=prop, obligations=obligations_of(log1))
             tally['at_once'].append(seed)
+        elif rc2 == 1 and seed in CAUGHT_BY_OTHER:
+            entry.update(caught_by=CAUGHT_BY_OTHER[seed], obligations=obligations_of(log2))
+            note.append('not seen by the check of %s (quick exit %s): caught by the check of %s, whose property it breaks as well '
+                        '(the order in which suite and case contents are merged)' % (prop, rc1, CAUGHT_BY_OTHER[seed]))
+            tally['strengthened'].append(seed)
         elif rc2 == 1:
             entry.update(caught_by=prop, obligations=obligations_of(log2))
             note.append('missed at first (quick exit %s); caught after strengthening' % rc1)
